@@ -22,12 +22,12 @@ def check(ctx):
                          "rustc (batched; error codes attributed per program) and by the calculus' executable type checker; "
                          "distinct_nontrivial counts distinct programs rustc rejects")
     translated = regen_sigs(ctx)
-    proved = prove(ctx, MODULES) if translated else False
-    if not translated:
-        for t in ("theorem:C04.*",):
-            ctx.add_ob(t, "theorem", False, "Gen/Sigs.lean could not be regenerated")
+    # when the extraction fails Gen/Sigs.lean keeps its last good content: the theorems then speak about THAT table (the
+    # undischarged `translate:Sigs.lean` obligation is what breaks the proof), and the rustc correspondence still runs, with the
+    # corpus generated from the same last good table — a changed signature/implementor shows up as a program that compiles
+    proved = prove(ctx, MODULES) and translated
     ran = run_life(ctx)
-    if (not proved or ctx.disagreements or not ran) and not [f for f in ctx.oracle_failures if not f.get("known")] and ctx.quick() and translated:
+    if (not proved or ctx.disagreements or not ran) and not [f for f in ctx.oracle_failures if not f.get("known")] and ctx.quick():
         # a proof obligation (e.g. `decide` on the regenerated table) or the correspondence broke: search the full product for a
         # program that must not compile but does
         ctx.notes.append("proof/correspondence broken: running the full corpus (thorough-tier generators) to find an escape that compiles")
